@@ -16,8 +16,9 @@
 (*                  raised, os = it was an OSError (connection-level: this is *)
 (*                  what "failing" means; other errors only have to escape   *)
 (*                  unchanged)                                               *)
-(*   ret / raise(x) the call returned / raised exception id x               *)
-(*                  (x = "all" : MemcacheError 'All servers seem to be down')*)
+(*   ret / raise(x, xs) the call returned / raised: xs = "id": the exception *)
+(*                  with id x (a contact's); xs = "all": MemcacheError 'All  *)
+(*                  servers seem to be down'; any other text: something else *)
 (* Time is kept as AGES (saturating at 2*dt+1), so the monitor is invariant *)
 (* under time translation and finite -- the same operators run inside TLC's *)
 (* exhaustive exploration of the as-coded model and over real traces.       *)
@@ -68,7 +69,7 @@ FMonClauses(m, ev) ==
          << <<"boundary-inside-a-call", m.incall>>,
             <<"C13-nothing-escapes-with-ignore_exc", ev.e = "raise" => ~h.ignore_exc>>,
             <<"C13-only-the-failing-servers-own-error-or-all-servers-down-escapes",
-                  ev.e = "raise" => (ev.x \in m.raised \/ (ev.x = "all" /\ m.rot0 = {}))>>,
+                  ev.e = "raise" => ((ev.xs = "id" /\ ev.x \in m.raised) \/ (ev.xs = "all" /\ m.rot0 = {}))>>,
             <<"C13-no-server-that-did-not-fail-is-bypassed",
                   \A i \in DOMAIN m.keys :
                      LET o == Owner(h, m.keys[i], m.rot0) IN
